@@ -932,6 +932,12 @@ class Interp:
         return a is b
 
     def is_same(self, a, b):
+        # `x is nan` with numpy's nan object: a NaN argument is taken to be that object (the default "not given" value)
+        for x, y in ((a, b), (b, a)):
+            if isinstance(x, XV) and isinstance(y, float) and y != y:
+                return SV(x.nan) if not isinstance(x.nan, bool) else x.nan
+            if isinstance(x, XV) and y is None:
+                return False
         if isinstance(a, SV) and a.is_pv() or isinstance(b, SV) and b.is_pv():
             if a is None or b is None:
                 other = a if b is None else b
@@ -1630,8 +1636,23 @@ class Interp:
         cenv = self._comp_env(env)
 
         def emit(e, g):
-            k = self.ev(node.key, e)
-            v = self.ev(node.value, e)
+            if g is True:
+                k = self.ev(node.key, e)
+                v = self.ev(node.value, e)
+            else:
+                # the element is evaluated under the (symbolic) filter condition of the comprehension
+                gz = g if not isinstance(g, bool) else z3.BoolVal(g)
+                self.ctx.merge_mode += 1
+                self.ctx.merge_guards.append(gz)
+                try:
+                    try:
+                        k = self.ev(node.key, e)
+                        v = self.ev(node.value, e)
+                    except CannotMerge:
+                        raise EngineError("dict comprehension: element under a symbolic filter is not a pure expression")
+                finally:
+                    self.ctx.merge_mode -= 1
+                    self.ctx.merge_guards.pop()
             out.set(k, v, g)
         self._comp(node.generators, cenv, emit, allow_guard=True)
         return out
